@@ -471,6 +471,16 @@ func (c *fileCtx) rewriteDefer(d *ast.DeferStmt) bool {
 func (c *fileCtx) rewriteGo(g *ast.GoStmt) {
 	call := g.Call
 	n := len(call.Args)
+	if id, ok := ast.Unparen(call.Fun).(*ast.Ident); ok {
+		if _, builtin := c.info.Uses[id].(*types.Builtin); builtin {
+			// go panic(e) and the like: a built-in is not a function value
+			c.replace(g.Go, call.Pos(), "simrt.Go0(func() { ")
+			c.insert(call.End(), " })", true, call)
+			c.needRT = true
+			c.site("R1.go")
+			return
+		}
+	}
 	if n > 4 || call.Ellipsis.IsValid() {
 		c.errorf(g, "go statement with %d arguments / variadic call is not supported", n)
 		return
@@ -704,6 +714,8 @@ type report struct {
 	Files  map[string]map[string]int `json:"files"`
 	Totals map[string]int            `json:"totals"`
 	Pkgs   []string                  `json:"packages"`
+	// ExtSkipped: dependencies that matched -ext-sched-prefixes but use a construct the rules cannot express
+	ExtSkipped []string `json:"ext_skipped,omitempty"`
 }
 
 func main() {
@@ -715,6 +727,7 @@ func main() {
 		simDir   = flag.String("sim", "/verif/sim", "directory with the simulator runtime packages")
 		fsNames  = flag.String("fsnames", "", "comma separated os.X / filepath.X names to interpose (fs rules)")
 		fnPkgs   = flag.String("fnentry-pkgs", "", "comma separated FULL import paths (dependencies included) that get only the fnentry rule")
+		extSched = flag.String("ext-sched-prefixes", "golang.org/x/sync/", "comma separated import path prefixes: dependencies of the target packages below them get the sched rules (concurrency helper libraries whose blocking the simulator must see)")
 	)
 	flag.Parse()
 	if *out == "" || *pkgsFlag == "" {
@@ -762,7 +775,73 @@ func main() {
 	rep := report{Files: map[string]map[string]int{}, Totals: map[string]int{}, Ext: map[string]string{}}
 	overlay := map[string]string{}
 	var errs []string
+	// concurrency helper libraries in the import closure of the target packages
+	extSchedPkg := map[string]bool{}
+	{
+		var prefixes []string
+		for _, p := range strings.Split(*extSched, ",") {
+			if p = strings.TrimSpace(p); p != "" {
+				prefixes = append(prefixes, p)
+			}
+		}
+		have := map[string]bool{}
+		for _, p := range pkgs {
+			have[p.PkgPath] = true
+		}
+		seen := map[string]bool{}
+		var visit func(p *packages.Package)
+		visit = func(p *packages.Package) {
+			if seen[p.PkgPath] {
+				return
+			}
+			seen[p.PkgPath] = true
+			for _, pre := range prefixes {
+				if strings.HasPrefix(p.PkgPath, pre) && !have[p.PkgPath] && len(p.Syntax) > 0 {
+					have[p.PkgPath] = true
+					extSchedPkg[p.PkgPath] = true
+					pkgs = append(pkgs, p)
+				}
+			}
+			var names []string
+			for n := range p.Imports {
+				names = append(names, n)
+			}
+			sort.Strings(names)
+			for _, n := range names {
+				visit(p.Imports[n])
+			}
+		}
+		for _, p := range append([]*packages.Package{}, pkgs...) {
+			visit(p)
+		}
+	}
 	for _, p := range pkgs {
+		if extSchedPkg[p.PkgPath] {
+			// a dependency is instrumented on a best-effort basis: with a construct the rules cannot express it
+			// stays as it is (its blocking is then only seen as a native block)
+			ok := len(p.Syntax) == len(p.CompiledGoFiles)
+			for i, f := range p.Syntax {
+				if !ok {
+					break
+				}
+				src, err := os.ReadFile(p.CompiledGoFiles[i])
+				if err != nil {
+					ok = false
+					break
+				}
+				c := &fileCtx{fset: p.Fset, file: f, tf: p.Fset.File(f.Pos()), src: src, info: p.TypesInfo,
+					sites: map[string]int{}, skip: map[ast.Node]bool{}, fsSet: fsSet}
+				c.buildParents()
+				c.schedRules()
+				if len(c.errs) > 0 {
+					ok = false
+				}
+			}
+			if !ok {
+				rep.ExtSkipped = append(rep.ExtSkipped, p.PkgPath)
+				continue
+			}
+		}
 		rep.Pkgs = append(rep.Pkgs, p.PkgPath)
 		for i, f := range p.Syntax {
 			name := p.CompiledGoFiles[i]
@@ -779,6 +858,8 @@ func main() {
 			c.buildParents()
 			if fnOnly[p.PkgPath] {
 				c.fnEntryRules()
+			} else if extSchedPkg[p.PkgPath] {
+				c.schedRules()
 			} else {
 				if strings.Contains(*rules, "sched") {
 					c.schedRules()
